@@ -205,3 +205,45 @@ collect_revcomp = collect_instance("ReverseComplementer", RC, dict(
     reverse_complemented_count_taken_over="added(self.reverse_complemented, old(self.reverse_complemented), m.reverse_complemented) or "
                                           "(is_none(old(self.with_adapters)[0]) and val(self.reverse_complemented) == m.reverse_complemented)"),
     mutants=[("self.reverse_complemented = modifier.reverse_complemented", "self.reverse_complemented = modifier.adapter_cutter.with_adapters")])
+
+
+# ------------------------------------------------------------------------------ Statistics.collect
+CollectAllT = ObjT("Statistics", n=Int, total_bp=FixedListT(Int, 2), paired=OptT(Bool), _collected=Bool, other=Int)
+schema("AnyStep")
+schema("AnyModifier")
+
+
+@contract("report.py", "Statistics._collect_step", props=[], name="Statistics._collect_step@abstract")
+def collect_step_abstract(c):
+    """call-site contract inside collect(): touches the per-step figures only"""
+    c.types(self=CollectAllT, step=ObjT("AnyStep"))
+    c.modifies = ["self.other"]
+
+
+@contract("report.py", "Statistics._collect_modifier", props=[], name="Statistics._collect_modifier@abstract")
+def collect_modifier_abstract(c):
+    c.types(self=CollectAllT, m=ObjT("AnyModifier"))
+    c.modifies = ["self.other"]
+
+
+@contract("report.py", "Statistics.collect", props=["C04"])
+def statistics_collect(c):
+    """The totals handed over by the pipeline (number of reads, bases of R1 and R2) are stored unchanged; statistics can be
+    collected once only."""
+    c.types(self=CollectAllT, n=Int, total_bp1=Int, total_bp2=OptT(Int), modifiers=SeqT(ObjT("AnyModifier")), steps=SeqT(ObjT("AnyStep")))
+    c.modifies = ["self"]
+    c.raises("ValueError", when="self._collected")
+    KEEP = ("self.n == n and self.total_bp[0] == total_bp1 and not is_none(self.paired) and val(self.paired) == (not is_none(total_bp2)) and "
+            "implies(not is_none(total_bp2), self.total_bp[1] == val(total_bp2)) and not self._collected")
+    c.loop(1, head="for step in steps", inv=[KEEP])
+    c.loop(2, head="for modifier in modifiers", inv=[KEEP])
+    c.ensures(
+        read_count_and_base_totals_are_those_of_the_pipeline="self.n == n and self.total_bp[0] == total_bp1 and implies(not is_none(total_bp2), self.total_bp[1] == val(total_bp2))",
+        paired_iff_a_second_total_is_given="not is_none(self.paired) and val(self.paired) == (not is_none(total_bp2))",
+        marked_as_collected="self._collected",
+    )
+    c.mutant("self.total_bp[1] = total_bp2", "self.total_bp[0] = total_bp2")
+    c.mutant("self.n = n", "self.n += n")
+
+
+api.BY_NAME["Statistics._collect_step"] = collect_step_abstract
